@@ -511,6 +511,31 @@ def call(f):
 # (`normalise_bytes` = memoryview(obj).cast("B")).  A container with multi-byte items has len(obj) != number of bytes, so an entry
 # point that forgets the normalisation crops / measures the digest in items.  The oracle and the model always see the bytes.
 
+# truthy / falsy NON-bool values for `allow_truncate` (the code uses truthiness: `if not allow_truncate`, `if allow_truncate`);
+# JSON-able names -> objects.  The oracle and the model use bool(flag).
+FLAG_OBJECTS = {"1": 1, "0": 0, "yes": "yes", "empty-str": "", "None": None, "empty-list": [], "2.5": 2.5}
+
+
+def flag_obj(case, field="allow_truncate"):
+    """the object handed to the real code for the truncation flag: the bool, or the non-bool value named by case['flag']"""
+    return FLAG_OBJECTS[case["flag"]] if case.get("flag") is not None else case[field]
+
+
+def flag_variants(rng, tagged, frac=0.2, tagpos=0, casepos=1):
+    """copies of cases carrying allow_truncate, re-offered with a non-bool flag of the same truthiness... or the other one"""
+    out = []
+    for tup in tagged:
+        case = tup[casepos]
+        if "allow_truncate" in case and "flag" not in case and rng.random() < frac:
+            name = rng.choice(sorted(FLAG_OBJECTS))
+            c2 = dict(case, flag=name, allow_truncate=bool(FLAG_OBJECTS[name]))
+            t2 = list(tup)
+            t2[tagpos] = "%s [allow_truncate=%s]" % (tup[tagpos], name)
+            t2[casepos] = c2
+            out.append(tuple(t2))
+    return out
+
+
 COUNT_RULE = ("  COUNTING: `evaluations` = comparisons made in the correspondence stage (every line of every stream, including the "
               "re-sending of toy-curve lines to the second reference model, streams `*.ref-affine`).  `distinct_nontrivial` = number of "
               "distinct correspondence CASES, a case being (operation line, digest container); a case is TRIVIAL and not counted when it "
@@ -524,7 +549,8 @@ def note_budget(ctx):
     ctx.cov["exploration_budget"] = {"kind": "counts derived from tier and VERIF_SEED", "wall_clock_cut": False, "skipped_specs": []}
 
 
-CONTAINERS = ("bytearray", "memoryview", "mv-H", "mv-I", "array-B", "array-H", "array-I")
+CONTAINERS = ("bytearray", "memoryview", "mv-H", "mv-I", "array-B", "array-H", "array-I", "mv-b", "array-b", "mv-array-b", "mv-array-B")
+CONTAINERS1 = ("bytearray", "memoryview", "array-B", "mv-b", "array-b", "mv-array-b", "mv-array-B")   # one-byte items (signed or not)
 
 
 def wrap_bytes(b, kind):
@@ -535,6 +561,10 @@ def wrap_bytes(b, kind):
         return b
     if kind == "memoryview":
         return memoryview(b)
+    if kind.startswith("mv-array-"):
+        a = array.array(kind.split("-")[2])     # a view of an array of signed / unsigned chars, NOT cast to "B"
+        a.frombytes(b)
+        return memoryview(a)
     if kind.startswith("mv-") or kind.startswith("array-"):
         code = kind.split("-")[1]
         size = array.array(code).itemsize
@@ -548,21 +578,32 @@ def wrap_bytes(b, kind):
     return bytearray(b)
 
 
+def wrap_sig(sig, kind):
+    """an encoded signature (bytes, or a tuple of byte strings) handed over in the named container kind"""
+    if kind in (None, "bytes"):
+        return sig
+    if isinstance(sig, (tuple, list)):
+        return tuple(wrap_bytes(x, kind) for x in sig)
+    return wrap_bytes(sig, kind)
+
+
 def digest_obj(case):
     """what is handed to the real entry point for the case's digest"""
     return wrap_bytes(bytes.fromhex(case["digest"]), case.get("container"))
 
 
-def container_variants(rng, tagged, frac=0.25, tagpos=0, casepos=1):
-    """copies of the tuples of `tagged` whose case carries a digest, re-offered in a random non-bytes container"""
+def container_variants(rng, tagged, frac=0.25, tagpos=0, casepos=1, field="container", needs="digest", what="digest"):
+    """copies of the tuples of `tagged` whose case carries a digest (resp. an encoded signature: field="sigcontainer", needs="sig"),
+    re-offered in a random non-bytes container"""
     out = []
     for tup in tagged:
         case = tup[casepos]
-        if "digest" in case and "container" not in case and rng.random() < frac:
+        if needs in case and field not in case and rng.random() < frac:
             kind = rng.choice(CONTAINERS)
-            c2 = dict(case, container=kind)
+            c2 = dict(case)
+            c2[field] = kind
             t2 = list(tup)
-            t2[tagpos] = "%s [digest as %s]" % (tup[tagpos], kind)
+            t2[tagpos] = "%s [%s as %s]" % (tup[tagpos], what, kind)
             t2[casepos] = c2
             out.append(tuple(t2))
     return out
